@@ -28,11 +28,11 @@ def language(tier, uname="U1"):
     fo = Q.field_options() if uname == "U1" else Q.field_options_U2()
     keys = list(fo)
     wins = [{}, {"since": 10}, {"since": 20}, {"since": 21}, {"until": 20}, {"until": 19}, {"until": 30}, {"since": 11, "until": 29},
-            {"since": 20, "until": 20}, {"since": Q.T9}, {"until": Q.T9}]
+            {"since": 20, "until": 20}, {"since": Q.T9}, {"until": Q.T9}, {"until": 0}]
     if uname == "U2":
-        wins = [{}, {"since": 7}, {"since": 10}, {"since": 15}, {"until": 7}, {"until": 25}, {"since": 4}, {"since": 21}, {"since": 7, "until": 25}]
+        wins = [{}, {"since": 7}, {"since": 10}, {"since": 15}, {"until": 7}, {"until": 25}, {"since": 4}, {"since": 21}, {"since": 7, "until": 25}, {"until": 0}]
     if tier == "quick":
-        wins = wins[:6] + ([{"since": 20, "until": 20}, {"since": 11, "until": 29}] if uname == "U1" else [{"since": 7, "until": 25}])
+        wins = wins[:6] + ([{"since": 20, "until": 20}, {"since": 11, "until": 29}, {"until": 0}] if uname == "U1" else [{"since": 7, "until": 25}, {"until": 0}])
     for w in wins:
         if w:
             base.append(dict(w))
